@@ -191,6 +191,9 @@ class World (object):
     self.hidden[sw][src] = None
     if absorbed in ("drop", "fwd") and moved:
       self.hidden[sw][src] = "after-return" if returned else "on-new-port"
+    if absorbed == "phantom":
+      self.fail("forwarded-by-removed-flow", "switch %d, frame %s->%s in port %d was handled by a flow entry that is no longer in the flow table (expired or deleted)"
+                % (sw + 1, src.hex()[-2:], dst.hex(), inp))
     ports = [q for q, _ in ems]
     where = "switch %d, frame %s->%s in port %d" % (sw + 1, src.hex()[-2:], dst.hex(), inp)
     if inp in ports: self.fail("back-out-ingress", "%s: emitted on its ingress port" % where)
@@ -248,14 +251,19 @@ class World (object):
     return out
 
 
-def make_expand (cname, buffers):
+def make_expand (cname, buffers, root=()):
   def expand (h):
     w = World(cname, buffers)
     out = None
+    for op in root: w.apply(op)
     for op in h: out = w.apply(op)
     return dict(key=w.key(), ops=w.ops(), bad=w.bad if h else [], out=out,
-                replay_extra=dict(config=cname, buffers=buffers))
+                replay_extra=dict(config=cname, buffers=buffers, root=[list(o) for o in root]))
   return expand
+
+
+# non-initial states to start from: flows cached in both directions and already hit on the switch's fast path
+ROOTS = [(("tx", 1, "h2"), ("tx", 2, "h1"), ("tx", 1, "h2"), ("tx", 2, "h1"), ("tx", 1, "h2"))]
 
 
 def run (cfg):
@@ -267,11 +275,16 @@ def run (cfg):
   if not cfg.quick: plans += [("3sw", 4, depth - 1), ("2sw", 1, depth - 1)]
   for cname, buffers, d in plans:
     bfs(make_expand(cname, buffers), d, rep, workers=cfg.workers, seed=cfg.seed, max_states=cfg.pick(200000, 2000000), chunk=16)
+  for root in ROOTS:
+    for cname in ("1sw", "2sw"):
+      bfs(make_expand(cname, 4, root), depth - 1, rep, workers=cfg.workers, seed=cfg.seed, max_states=cfg.pick(200000, 2000000), chunk=16)
+  rep.extra["roots"] = [[list(o) for o in r] for r in ROOTS]
   rep.rule = ("breadth-first search with state matching over all sequences of <=%d host stimuli {frame from each of 3 hosts to each "
               "other host / an unknown unicast address / broadcast / IPv4 multicast / 01:80:c2:00:00:00 / LLDP, host 1 moves to a spare port "
               "and back, clock +11 s and +31 s followed by an expiry sweep; in the 1swb plans also bursts of 2-3 frames (>128 bytes) that arrive before "
               "the controller answers, with 1 or 2 buffer slots} on %s, switch buffering on (4 slots) and off; every dataplane "
-              "arrival at every switch is judged against the ideal learning bridge; distinct = (last stimulus, per-arrival emissions)"
+              "arrival at every switch is judged against the ideal learning bridge; additionally depth-1 searches on 1sw/2sw from a state with flows cached "
+              "in both directions and already hit; distinct = (last stimulus, per-arrival emissions)"
               % (depth, ", ".join("%s/%d buffers depth %d" % p for p in plans)))
   rep.bound = dict(depth=depth, plans=[list(p) for p in plans])
   rep.assumptions = ["the controller reacts synchronously to each packet-in (single-threaded FIFO pump)",
@@ -283,6 +296,7 @@ def replay (cfg, data):
   from mc.env import boot
   boot()
   w = World(data["config"], data["buffers"]); lines = []
+  for op in data.get("root", []): w.apply(tuple(op))
   for op in data["history"]:
     out = w.apply(tuple(op))
     lines.append("%r -> %r %s" % (tuple(op), out, w.bad or ""))
